@@ -88,11 +88,15 @@ pub fn witnesses(edges: &[Seg], tol: f64) -> Witnesses {
                         let (o1, o2) = (orient(m, w, c), orient(m, w, d));
                         if o1 == 0.0 && o2 == 0.0 {
                             // collinear with the probe: counts only if the spans overlap
-                            return collinear_overlap((m, w), e) || on_segment(c, (m, w)) || on_segment(d, (m, w));
+                            return collinear_overlap((m, w), e)
+                                || on_segment(c, (m, w))
+                                || on_segment(d, (m, w));
                         }
                         o1 * o2 <= 0.0 && orient(c, d, m) * orient(c, d, w) <= 0.0
                     };
-                    if edges.iter().all(|&e| dist_pt_seg(w, e) >= need) && !edges.iter().any(|&e| crosses(e)) {
+                    if edges.iter().all(|&e| dist_pt_seg(w, e) >= need)
+                        && !edges.iter().any(|&e| crosses(e))
+                    {
                         pts.push(w);
                         found = true;
                         break;
@@ -104,7 +108,11 @@ pub fn witnesses(edges: &[Seg], tol: f64) -> Witnesses {
             }
         }
     }
-    Witnesses { pts, sides, skipped }
+    Witnesses {
+        pts,
+        sides,
+        skipped,
+    }
 }
 
 // ------------------------------------------------------------------------------------------------
@@ -251,7 +259,8 @@ pub fn float_structural(res: &MP, wits: &[P], out: &mut Vec<&'static str>) {
 
 fn line_intersection(s: Seg, t: Seg) -> Option<P> {
     // integer inputs: exact rational in i128, rounded once
-    let is_int = |p: P| p.0.fract() == 0.0 && p.1.fract() == 0.0 && p.0.abs() < 1e9 && p.1.abs() < 1e9;
+    let is_int =
+        |p: P| p.0.fract() == 0.0 && p.1.fract() == 0.0 && p.0.abs() < 1e9 && p.1.abs() < 1e9;
     if is_int(s.0) && is_int(s.1) && is_int(t.0) && is_int(t.1) {
         let i = |x: f64| x as i128;
         let (x1, y1, x2, y2) = (i(s.0 .0), i(s.0 .1), i(s.1 .0), i(s.1 .1));
@@ -279,9 +288,18 @@ fn line_intersection(s: Seg, t: Seg) -> Option<P> {
 pub fn provenance(a: &MP, b: &MP, res: &MP, tol: f64, out: &mut Vec<&'static str>) {
     let mut input = mp_edges(a);
     input.extend(mp_edges(b));
-    let inverts: std::collections::HashSet<(u64, u64)> =
-        mp_vertices(a).into_iter().chain(mp_vertices(b)).map(|p| (p.0.to_bits(), p.1.to_bits())).collect();
-    let near = |p: P, e: Seg| if tol == 0.0 { on_segment(p, e) } else { dist_pt_seg(p, e) <= tol };
+    let inverts: std::collections::HashSet<(u64, u64)> = mp_vertices(a)
+        .into_iter()
+        .chain(mp_vertices(b))
+        .map(|p| (p.0.to_bits(), p.1.to_bits()))
+        .collect();
+    let near = |p: P, e: Seg| {
+        if tol == 0.0 {
+            on_segment(p, e)
+        } else {
+            dist_pt_seg(p, e) <= tol
+        }
+    };
     for (p, q) in mp_edges(res) {
         if !input.iter().any(|&e| near(p, e) && near(q, e)) {
             out.push("C04 edge-not-on-an-input-edge");
@@ -320,7 +338,12 @@ pub fn provenance(a: &MP, b: &MP, res: &MP, tol: f64, out: &mut Vec<&'static str
 /// independently of the implementation; an operand without edges has the empty (inverted infinite) box
 pub fn boxes_disjoint(a: &MP, b: &MP) -> bool {
     let bx = |mp: &MP| {
-        let (mut x0, mut y0, mut x1, mut y1) = (f64::INFINITY, f64::INFINITY, f64::NEG_INFINITY, f64::NEG_INFINITY);
+        let (mut x0, mut y0, mut x1, mut y1) = (
+            f64::INFINITY,
+            f64::INFINITY,
+            f64::NEG_INFINITY,
+            f64::NEG_INFINITY,
+        );
         for (p, q) in mp_edges(mp) {
             for v in [p, q] {
                 x0 = x0.min(v.0);
